@@ -416,11 +416,8 @@ def observe(magpy, Bad):
         "Cuboid().field_func = f [read-only attribute]": kind(lambda: setattr(magpy.magnet.Cuboid(), "field_func", None)),
         "getB(pixel_agg='ndim') (accepted by the check, TypeError inside getBH_level2)": kind(lambda: d.getB(S(pixel=[(1, 2, 3), (2, 3, 4)]), pixel_agg="ndim")),
         "Collection(a, b).children = [a, 1] -> rejected; children afterwards": _children_after(magpy, Bad),
-        "Collection().children = 5 [self.add(*5): TypeError; state kept]": kind(lambda: setattr(magpy.Collection(S()), "children", 5)),
-        "Collection().children = None": kind(lambda: setattr(magpy.Collection(S()), "children", None)),
-        "Collection(sub).collections = 5 (accepted: every sub-collection is dropped)": _coll_junk(magpy, "collections", 5),
-        "Collection(sub).collections = [1, 'abc'] (accepted: junk entries are filtered out)": _coll_junk(magpy, "collections", [1, "abc"]),
         "Collection(sensor).sensors = [a source] (accepted: the source is filtered out, the sensors are dropped)": _coll_junk(magpy, "sensors", [magpy.misc.Dipole(moment=(1, 2, 3))]),
+        "Collection(sub).collections = [a source] (accepted: Magpylib objects of another kind are still dropped; Props/C17b collections_setter_drops_other_objects)": _coll_junk(magpy, "collections", [magpy.misc.Dipole(moment=(1, 2, 3))]),
         # same coercion as the repaired make_float_array, outside attribute assignment
         "getB(observers=(1, None, 3))": kind(lambda: d.getB((1, None, 3))),
         "getB(observers=(1, '2', 3))": kind(lambda: d.getB((1, "2", 3))),
